@@ -982,6 +982,142 @@ func genBigStore(seed uint64, n int) storeIn {
 	return in
 }
 
+// ------------------------------------------------------------------ (F) chunked search, nested fractions
+
+// chunkIn: 3-5 real fractions with NESTED / overlapping time ranges (one wide fraction holding old AND
+// new documents over narrow ones), searched with FractionsPerIteration 1 or 2 and small limits in both
+// orders: the early stop by time borders (List.Sort + calcEnsuredIDsCount) must not drop documents.
+type chunkQ struct {
+	From    uint64 `json:"from"`
+	To      uint64 `json:"to"`
+	Limit   int    `json:"limit"`
+	Reverse bool   `json:"reverse"`
+	FPI     int    `json:"fpi"`
+}
+
+type chunkIn struct {
+	Kind     string   `json:"kind"`
+	Fracs    []fracIn `json:"fracs"`
+	SealLast bool     `json:"seal_last"`
+	Qs       []chunkQ `json:"qs"`
+}
+
+func runChunk(w *casefile.Writer, in chunkIn) {
+	in.Kind = "chunk"
+	dir, err := os.MkdirTemp("", "verif-c14-")
+	if err != nil {
+		panic(err)
+	}
+	defer os.RemoveAll(dir)
+	fm, err := fracbuild.NewFM(dir, nil)
+	if err != nil {
+		panic(err)
+	}
+	var all []seq.ID
+	for k, fr := range in.Fracs {
+		a := fm.VerifC14Active()
+		if a == nil {
+			panic("no active fraction")
+		}
+		a.VerifC14SetCreationTime(fr.Creation)
+		docs := make([]fracbuild.Doc, len(fr.Docs))
+		for i, d := range fr.Docs {
+			docs[i] = fracbuild.Doc{MID: d[0], RID: d[1], Body: []byte(fmt.Sprintf(`{"k":"a","n":%d}`, i)), Tokens: []string{"k:a"}}
+		}
+		if err := fracbuild.Append(fm, docs); err != nil {
+			panic(err)
+		}
+		if k < len(in.Fracs)-1 || in.SealLast {
+			fracbuild.Seal(fm)
+		}
+		all = append(all, toIDs(fr.Docs)...)
+	}
+	sortDesc(all)
+	fracs := fracbuild.Fracs(fm)
+	var qs []string
+	nontrivial := false
+	p := try(func() {
+		for _, q := range in.Qs {
+			qpr, err := fracbuild.Search(fracs, fracbuild.Query{Text: "k:a", Mapping: mapping, From: q.From, To: q.To,
+				Limit: q.Limit, Reverse: q.Reverse}, q.FPI)
+			if err != nil {
+				w.Violate("error:chunked-search", "chunked search fails: "+err.Error(), in)
+				continue
+			}
+			res := make([]seq.ID, len(qpr.IDs))
+			for i, x := range qpr.IDs {
+				res[i] = x.ID
+			}
+			if len(res) == q.Limit && q.FPI < len(fracs) {
+				nontrivial = true // the limit is reached, so the early stop decides
+			}
+			qs = append(qs, fmt.Sprintf("%s %s %d %s %d %s", zu(q.From), zu(q.To), q.Limit, zb(q.Reverse), q.FPI, listID(res)))
+		}
+	})
+	fracbuild.Close(fm)
+	if p != nil {
+		w.Violate("panic:chunked-search", fmt.Sprintf("chunked search panics: %v", p), in)
+		return
+	}
+	w.Add(fmt.Sprintf("WChunk %s %s", listID(all), nest("cqc", "cqn", qs)), "chunked-nested", nontrivial, in, nil)
+}
+
+func genChunk(r *rng.R) chunkIn {
+	t0 := baseMs + uint64(r.Intn(1000000))*1000
+	unit := uint64(rng.Pick(r, []int{1, 1000, minuteMs}))
+	n := r.Range(3, 5)
+	seen := map[[2]uint64]bool{}
+	mk := func(lo, hi uint64, cnt int) [][2]uint64 {
+		var out [][2]uint64
+		for len(out) < cnt {
+			d := [2]uint64{t0 + (lo+r.U64()%(hi-lo+1))*unit, rng.Pick(r, []uint64{0, 1, randRID(r)})}
+			if !seen[d] {
+				seen[d] = true
+				out = append(out, d)
+			}
+		}
+		return out
+	}
+	var fracs []fracIn
+	// the wide fraction: an old cluster and a new cluster around everything else
+	wide := append(mk(0, 100, r.Range(1, 4)), mk(900, 1000, r.Range(1, 4))...)
+	fracs = append(fracs, fracIn{Docs: wide, Class: "wide"})
+	for i := 1; i < n; i++ {
+		switch r.Intn(4) {
+		case 0: // second level of nesting: medium fraction around the narrow ones
+			fracs = append(fracs, fracIn{Docs: append(mk(150, 250, r.Range(1, 3)), mk(750, 850, r.Range(1, 3))...), Class: "medium"})
+		case 1: // overlaps the new cluster of the wide fraction
+			fracs = append(fracs, fracIn{Docs: mk(850, 950, r.Range(2, 5)), Class: "overlap-new"})
+		default: // narrow, inside
+			lo := uint64(r.Range(300, 650))
+			fracs = append(fracs, fracIn{Docs: mk(lo, lo+uint64(r.Range(0, 60)), r.Range(2, 5)), Class: "narrow"})
+		}
+	}
+	rng.Shuffle(r, fracs) // creation order is independent of the time ranges
+	for i := range fracs {
+		mx := uint64(0)
+		for _, d := range fracs[i].Docs {
+			mx = max(mx, d[0])
+		}
+		fracs[i].Creation = mx + uint64(rng.Pick(r, []int{1000, 20 * minuteMs}))
+		rng.Shuffle(r, fracs[i].Docs)
+	}
+	in := chunkIn{Fracs: fracs, SealLast: r.Bool()}
+	pt := func() uint64 { return t0 + uint64(r.Intn(1100))*unit }
+	for i := 0; i < 14; i++ {
+		q := chunkQ{From: t0 - 1, To: t0 + 2000*unit, Limit: r.Range(1, 6), Reverse: r.Bool(), FPI: r.Range(1, 2)}
+		if r.Chance(1, 3) {
+			a, b := pt(), pt()
+			q.From, q.To = min(a, b), max(a, b)
+		}
+		if r.Chance(1, 8) {
+			q.To = math.MaxUint64
+		}
+		in.Qs = append(in.Qs, q)
+	}
+	return in
+}
+
 // ------------------------------------------------------------------ main / replay
 
 func doReplay(w *casefile.Writer, path string) {
@@ -1030,6 +1166,10 @@ func doReplay(w *casefile.Writer, path string) {
 		var in bordersIn
 		json.Unmarshal(raw, &in)
 		runBorders(w, in, "replay")
+	case "chunk":
+		var in chunkIn
+		json.Unmarshal(raw, &in)
+		runChunk(w, in)
 	case "store":
 		var in storeIn
 		json.Unmarshal(raw, &in)
@@ -1065,9 +1205,9 @@ func main() {
 	}
 	thorough := *tier == "thorough"
 	r := rng.New(*seed)
-	nInfo, nStores, nBig := 500, 40, 2
+	nInfo, nStores, nBig, nChunk := 500, 40, 2, 40
 	if thorough {
-		nInfo, nStores, nBig = 8000, 400, 8
+		nInfo, nStores, nBig, nChunk = 8000, 400, 8, 500
 	}
 	genBits(w, r.Fork(), thorough)
 	genDistGrid(w, thorough)
@@ -1089,6 +1229,10 @@ func main() {
 	rs := r.Fork()
 	for i := 0; i < nStores; i++ {
 		runStore(w, genStore(rs))
+	}
+	rc := r.Fork()
+	for i := 0; i < nChunk; i++ {
+		runChunk(w, genChunk(rc))
 	}
 	for i := 0; i < nBig; i++ {
 		runStore(w, genBigStore(rs.U64(), rs.Range(4090, 4100)+4096*rs.Intn(2)))
